@@ -23,6 +23,12 @@ inductive Op where
   | guard (l : Nat)
   /-- `release(x);` on the main path -/
   | rel (r : Res)
+  /-- a loop that fills an indexed object element by element
+        for (i = 0; i < n; i++) { x[i] = acquire(...); if (!x[i]) { <label l> } }
+      `r` stands for "the elements of x acquired so far".  When the step fails some elements (a prefix) are held
+      already, so - unlike `acq` - the failure exit `l` has to release `r` too
+      (`while (i > 0) release(x[--i]);`). -/
+  | acqp (r : Res) (l : Nat)
 deriving Repr, DecidableEq
 
 def Op.hard : Op → Bool
@@ -55,6 +61,8 @@ def runFrom (t : Table) (fail : Nat → Bool) : List Op → Nat → List Res →
   | .guard l :: rest, i, held, freed =>
       if fail i then exit t held freed l else runFrom t fail rest (i + 1) held freed
   | .rel r :: rest, i, held, freed => runFrom t fail rest (i + 1) (held.erase r) (freed ++ [r])
+  | .acqp r l :: rest, i, held, freed =>
+      if fail i then exit t (held ++ [r]) freed l else runFrom t fail rest (i + 1) (held ++ [r]) freed
 
 def run (t : Table) (fail : Nat → Bool) : Outcome := runFrom t fail t.ops 0 [] []
 
@@ -73,6 +81,8 @@ def wfFrom (t : Table) : List Op → List Res → List Res → Bool
       !(held.contains r) && !(freed.contains r) && labelOK t held l && wfFrom t rest (held ++ [r]) freed
   | .guard l :: rest, held, freed => labelOK t held l && wfFrom t rest held freed
   | .rel r :: rest, held, freed => held.contains r && wfFrom t rest (held.erase r) (freed ++ [r])
+  | .acqp r l :: rest, held, freed =>
+      !(held.contains r) && !(freed.contains r) && labelOK t (held ++ [r]) l && wfFrom t rest (held ++ [r]) freed
 
 def Table.wf (t : Table) : Bool := wfFrom t t.ops [] []
 
